@@ -2,6 +2,7 @@ package harness
 
 import (
 	"fmt"
+	"reflect"
 	"sort"
 	"strings"
 
@@ -178,11 +179,18 @@ func subscriptionListing(n *Node, p *Peer) (string, []uint64) {
 //
 //go:norace
 func cmdFunction(c model.CmdType) (model.FunctionType, any) {
-	d, err := c.Data()
-	if err != nil || d.Function == nil {
-		return "", nil
+	// (the data member is found by its wire name, not through the implementation's tags)
+	v := reflect.ValueOf(c)
+	for i := 0; i < v.NumField(); i++ {
+		sf := v.Type().Field(i)
+		if _, ok := cmdFieldByFn[model.FunctionType(jsonName(sf))]; !ok {
+			continue
+		}
+		if f := v.Field(i); f.Kind() == reflect.Ptr && !f.IsNil() {
+			return model.FunctionType(jsonName(sf)), f.Interface()
+		}
 	}
-	return *d.Function, d.Value
+	return "", nil
 }
 
 // checkFanout verifies the exactly-once fan-out of every data change.
